@@ -4,6 +4,11 @@ The float arithmetic of relabeling.prepare_inserts is value-level and is not dec
 section 5). Deviation from DESIGN.md section 4: a fourth rule (R4) pins the plumbing of
 PositionColumn.prepare_new_values (which list the adjustment indexes refer to, ignore_data), since
 an index applied to the wrong list renumbers the wrong rows.
+
+Reading the code: every rule function is evaluated through H.guarded_views -- on the source as
+written and on behaviour-preserving normal forms of it (see _h_C.py / _h_C_norm.py) -- and slots
+are filled by role (flow origins, guard atoms, return cases, conditions as boolean formulas),
+not by statement shape or local names.
 """
 import ast
 from ..fn import World
